@@ -19,10 +19,10 @@ cd /verif/harness || exit 2
 SHARDS=${VERIF_SANIT_SHARDS:-16}
 BUDGET=${VERIF_SANIT_BUDGET:-420}     # seconds per shard process
 
-# property -> "tool:stride" list
+# property -> "tool:stride[:inner]" list
 case "$ID" in
-  C01) STAGES="miri:60000" ;;
-  C02) STAGES="miri:60000 asan:4" ;;
+  C01) STAGES="miri:900" ;;
+  C02) STAGES="miri:16000:16 asan:4" ;;
   C09) STAGES="miri:500 asan:2" ;;
   C10) STAGES="miri:700 asan:4" ;;
   C18) STAGES="miri:240" ;;
@@ -38,7 +38,7 @@ esac
 rc_all=0
 summary="["
 for st in $STAGES; do
-  tool=${st%%:*}; stride=${st##*:}
+  tool=$(echo $st | cut -d: -f1); stride=$(echo $st | cut -d: -f2); inner=$(echo $st | cut -d: -f3); inner=${inner:-1}
   t0=$(date +%s)
   rm -f "$OUT/$ID-$tool-"*.json "$OUT/$ID-$tool-"*.log
   case "$tool" in
@@ -74,7 +74,7 @@ for st in $STAGES; do
   [ "$stride" -lt "$SHARDS" ] && nsh=$stride
   [ "$nsh" -lt 1 ] && nsh=1
   for sh in $(seq 0 $((nsh-1))); do
-    ( cd /verif/harness && VERIF_SANITIZER=$SANNAME VERIF_STRIDE=$stride VERIF_SHARD=$sh VERIF_JOBS=1 VERIF_SEED=$SEED \
+    ( cd /verif/harness && VERIF_SANITIZER=$SANNAME VERIF_STRIDE=$stride VERIF_INNER=$inner VERIF_SHARD=$sh VERIF_JOBS=1 VERIF_SEED=$SEED \
         timeout $BUDGET $RUN $ID --tier quick > "$OUT/$ID-$tool-$sh.log" 2>&1; echo $? > "$OUT/$ID-$tool-$sh.rc" ) &
     pids="$pids $!"
   done
